@@ -197,7 +197,7 @@ def check_conversions(ctx: Ctx):
     Position, *_, ellipsoid, T = _imp()
     drv, rng = ctx.driver, ctx.rng
     names = list(ellipsoid._ELLIPSOIDS)
-    n_groups = ctx.budget(700, 30000)
+    n_groups = ctx.budget(700, 60000)
     pending = []  # for the mpmath reference
     corpus = []
     run_corpus(ctx, "C05", lambda c: corpus.append(c) if c.get("kind") == "points" and c.get("ellipsoid") in names else None)
@@ -320,7 +320,7 @@ def check_conversions(ctx: Ctx):
 def measure_accuracy(ctx: Ctx, pending):
     """the accuracy figures of the published one-step algorithm, measured against mpmath"""
     *_, ellipsoid, T = _imp()
-    limit = ctx.budget(2500, 60000)
+    limit = ctx.budget(2500, 120000)
     pending = pending[:limit]
     jobs = []
     for ell, kind, xyz, llh, case in pending:
@@ -531,7 +531,7 @@ def check_flow(ctx: Ctx):
     Position, PositionDelta, PosVel, PosVelDelta, PositionArray, PosVelArray, ellipsoid, T = _imp()
     drv, rng = ctx.driver, ctx.rng
     names = list(ellipsoid._ELLIPSOIDS)
-    n = ctx.budget(400, 15000)
+    n = ctx.budget(400, 30000)
     ctor_kinds = tuple(drv.ask1("c05 getitemkinds").split(","))
     # every single operation on every ellipsoid first (the boundary set), then random sequences
     seqs = []
